@@ -32,6 +32,13 @@ def replay(prop, path):
             w = rec.get('witness')
             if w:
                 print('recorded witness:', json.dumps(w))
+                for v in (w.get('values') or []):
+                    if isinstance(v, dict) and v.get('suite') and v.get('case'):
+                        import xrun_run
+                        xr = xrun_run.run_suite(v['suite'], scratch, 'thorough', only=v['case'])
+                        print('replay of the witness on the real code: xrun %s --only %s: %s' % (v['suite'], v['case'], xr['status']))
+                        for fl in xr.get('failures', []):
+                            print('STILL FAILS on the real code:', json.dumps(fl))
             return 1
         if rec.get('backend') == 'kani':
             # re-run the recorded harness on the real crates compiled from the current tree (with concrete playback of the counterexample)
